@@ -144,6 +144,16 @@ def l1(prog, ctx):
                 want_t = (rootp if rootp in tmpl else "") + lit + ("/" + projp if projp in tmpl else "")
                 others = set(re.findall(r"\{[^}]*\}", tmpl)) - {rootp, projp}
                 if not others:
+                    # the form with the project directory is used exactly when there is a project, the prefixed one exactly when there is a prefix
+                    req9 = cfg.required_literals(cfg.block_of(c), expand_locals=False)
+                    for ph, atom in ((projp, "project"), (rootp, "(*key_file)->root_prefix")):
+                        pols = set(l9.pol for l9 in req9 if l9 is not None and l9.kind == "truth" and l9.atom == atom)
+                        pols |= set((not l9.pol) for l9 in req9 if l9 is not None and l9.kind == "eq" and atom in (render(l9.lhs), render(l9.rhs))
+                                    and (l9.lhs.is_null_const() or l9.rhs.is_null_const()))
+                        if pols and ((ph in tmpl) not in pols):
+                            bad = (c, "composes `%s` on the branch where `%s` is %s" % (tmpl, atom, "NULL" if ph in tmpl else "set"))
+                    if bad:
+                        continue
                     if tmpl != want_t:
                         bad = (c, "composes `%s`, not `%s`%s" % (tmpl, want_t, ": directory and prefix run into each other" if tmpl.replace("/", "") == want_t.replace("/", "") else ""))
                     continue
@@ -1163,8 +1173,61 @@ def l20_absent_dropin_dir(prog, ctx, rule="L20"):
                          sorted(str(v) for v in vals)), key="absent-dir:%s" % name)
 
 
+def l13c_dropins_only(prog, ctx):
+    """L13c: without a configuration name (NULL or "") the read is "drop-ins only": the project takes the place of the name and the one
+    drop-in directory is `<project>.d` - the object's postfix list becomes the single entry ".d", counted as 1."""
+    f = prog.fn("econf_readConfigWithCallback")
+    ctx.touch(f)
+    sw = [st for lhs, rhs, st, kind in query.stores(f) if kind == "=" and render(lhs) == "config_name" and rhs is not None and render(rhs) == "project"]
+    if len(sw) != 1:
+        ctx.inconclusive("L13", "drop-ins only: entered exactly without a configuration name", f.where, "the statement `config_name = project` was not found")
+        return
+    iff = next((a for a in sw[0].ancestors() if a.k == "IfStmt"), None)
+    cond = iff.child("cond") if iff is not None else None
+
+    def disj(e):
+        e2 = e.strip()
+        if e2.k == "BinaryOperator" and e2.j.get("op") == "||":
+            return disj(e2.children[0]) + disj(e2.children[1])
+        return [e2]
+    if cond is None:
+        ctx.inconclusive("L13", "drop-ins only: entered exactly without a configuration name", sw[0].where, "no guarding test")
+    else:
+        parts = [render(x).replace(" ", "") for x in disj(cond)]
+        null_forms = ("config_name==NULL", "!config_name", "NULL==config_name", "config_name==0")
+        empty_forms = ("strlen(config_name)==0", "!strlen(config_name)", "*config_name=='\\x00'", "!*config_name", "config_name[0]=='\\x00'", "!config_name[0]", "*config_name==0",
+                       "0==strlen(config_name)", "strlen(config_name)<1")
+        if len(parts) == 2 and parts[0] in null_forms and parts[1] in empty_forms:
+            ctx.ok("L13", "drop-ins only: entered exactly without a configuration name", cond.where, render(cond)[:70])
+        elif any("config_name" in p9 for p9 in parts) and (
+                any(p9 in ("config_name!=NULL", "config_name", "strlen(config_name)!=0", "strlen(config_name)", "strlen(config_name)>0", "*config_name") for p9 in parts)
+                or any(re.fullmatch(r"strlen\(config_name\)==[1-9]\d*", p9) for p9 in parts)
+                or (len(parts) == 1 and "&&" in parts[0] and "config_name" in parts[0])):
+            ctx.fail("L13", "drop-ins only: entered exactly without a configuration name", cond.where,
+                     "`%s`: not \"config_name is NULL or empty\" - a read with a name is taken for drop-ins only (or the other way round; an empty name is dereferenced "
+                     "when NULL)" % render(cond)[:70], key="dropins-only-test")
+        else:
+            ctx.inconclusive("L13", "drop-ins only: entered exactly without a configuration name", cond.where, "test `%s` not understood" % render(cond)[:60])
+    body = iff.child("then") if iff is not None else None
+    if body is not None:
+        cnt = [st for lhs, rhs, st, kind in query.stores(f) if st.within(body) and kind == "=" and render(lhs).endswith("->conf_count") and rhs is not None]
+        slot = [(st, lhs, rhs) for lhs, rhs, st, kind in query.stores(f) if st.within(body) and kind == "=" and lhs.strip().k == "ArraySubscriptExpr"
+                and render(lhs.strip().children[0]).endswith("->conf_dirs") and rhs is not None and not rhs.is_null_const()]
+        okc = len(cnt) == 1 and cnt[0].children[1].const_value() == 1
+        oks = len(slot) == 1 and slot[0][1].strip().children[1].const_value() == 0 and any(x.string_value() == ".d" for x in slot[0][2].walk())
+        if okc and oks:
+            ctx.ok("L13", "drop-ins only: the postfix list is the single entry \".d\"", slot[0][0].where, "conf_count = 1, conf_dirs[0] = strdup(\".d\")")
+        elif slot or (cnt and not okc):
+            ctx.fail("L13", "drop-ins only: the postfix list is the single entry \".d\"", (slot[0][0] if slot else cnt[0]).where,
+                     "count %s, members %s: the drop-in directory `<project>.d` is not (the only one) searched" % (
+                         [render(c9.children[1]) for c9 in cnt], [render(s9[0])[:50] for s9 in slot]), key="dropins-only-list")
+        else:
+            ctx.inconclusive("L13", "drop-ins only: the postfix list is the single entry \".d\"", body.where, "the list is built in a form not understood")
+
+
 def run(prog, ctx):
     l20_absent_dropin_dir(prog, ctx)
+    l13c_dropins_only(prog, ctx)
     l2_live_object(prog, ctx)
     l18_l19(prog, ctx)
     l1(prog, ctx)
